@@ -1,4 +1,5 @@
 import Ibx.Gen.Broker
+import Ibx.Gen.Lua
 import Ibx.Props.C16Broker
 /-
   T1 tie: the theorems of Ibx/Props/C16Broker.lean are about the variant of the broker that the source
@@ -46,5 +47,17 @@ theorem msghubOneListenerName_tie : Gen.Broker.msghubOneListenerName = true := b
 /-- the synchronous broker has the shape `Model.Broker.emit` / `addListener` encode -/
 theorem syncEmitFirstResult_tie : Gen.Broker.syncEmitFirstResult = true := by decide
 theorem registry_tie : Gen.Broker.registryRemoveFirstThenAppend = true := by decide
+
+/-- the Lua host's listeners on the two ASYNCHRONOUS brokers (the After events) run the script INSIDE the listener call:
+    on every control-flow path of the Go listener the protected Lua entry lies on the path itself (a call handed to a
+    goroutine or a closure is not on the path: it leaves `protect` and `deferPut` false), and the pooled state is held
+    until the listener returns (`defer put` before the first use of the state, one get and one put).  So "the Go
+    listener has returned" = "the script has finished", and the serialisation proved above for the Go listener carries
+    over to the script.  A listener that starts the script in a goroutine and stops waiting for it (a watchdog timeout)
+    breaks exactly this, while the broker itself is untouched.  (`Gen.Lua` is re-read from pkg/extension/luahost.) -/
+theorem luaAfterListenersSynchronous_tie :
+    (Gen.Lua.listeners.filter (fun l => Gen.Broker.asyncBrokerFields.contains l.event)).map
+      (fun l => (l.event, l.protect, l.deferPut, l.gets, l.puts)) =
+    [("AfterMessageDeleted", true, true, 1, 1), ("AfterMessageStored", true, true, 1, 1)] := by decide +kernel
 
 end Ibx.Tie.Broker
